@@ -382,6 +382,9 @@ func c12Make(r *prng.R) *c12In {
 			}
 			for i := 0; i < n; i++ {
 				u := c12UTXO{TxID: r.Bytes(32), Vout: gen.U32(r), Script: gen.P2PKH(r.Bytes(20))}
+				if r.Chance(1, 25) { // a coin whose script the size estimate does not support (pay-to-public-key, anything else)
+					u.Script = prng.Pick(r, [][]byte{append(append([]byte{33, 0x02}, r.Bytes(32)...), 0xac), {0x51}, append([]byte{0xa9, 0x14}, append(r.Bytes(20), 0x87)...)})
+				}
 				if r.Chance(1, 2) {
 					u.Seq = gen.U32(r)
 				}
@@ -609,7 +612,13 @@ func c12Judge(c *mon.Ctx, in *c12In) {
 			consumed = append(consumed, u)
 		}
 		prev := d
-		d, _ = model.Deficit(q)
+		var derr2 error
+		d, derr2 = model.Deficit(q)
+		if derr2 != nil { // the batch brought an input whose final size cannot be estimated: funding cannot go on
+			stop = "unsupported-input"
+			d = big.NewInt(1)
+			break
+		}
 		switch {
 		case d.Sign() == 0:
 			paid := model.Paid()
@@ -637,6 +646,8 @@ func c12Judge(c *mon.Ctx, in *c12In) {
 	if len(hist) > k {
 		why := "once-the-deficit-is-zero"
 		switch stop {
+		case "unsupported-input":
+			why = "after-an-input-that-cannot-be-estimated"
 		case "exhausted":
 			why = "after-exhaustion-was-reported"
 		case "supplier-error":
@@ -649,6 +660,11 @@ func c12Judge(c *mon.Ctx, in *c12In) {
 	case "covered", "covered-at-start":
 		if ferr != nil {
 			c.Violationf("C12:error-although-covered", "the model deficit is zero after %d calls but Fund returned %v; %s", k, ferr, describe())
+		}
+	case "unsupported-input":
+		c.Count("unsupported-input:histories")
+		if ferr == nil {
+			c.Violationf("C12:success-although-an-input-cannot-be-estimated", "Fund returned nil although the supplier handed over a coin whose spent script is neither P2PKH nor a P2PKH inscription (no fee estimate exists for the transaction); %s", describe())
 		}
 	case "library-stopped-calling":
 		if ferr == nil {
